@@ -1,8 +1,10 @@
 use std::io::Cursor;
-use ebml_iterable_specification::{EbmlSpecification, EbmlTag};
+use ebml_iterable_specification::{EbmlSpecification, EbmlTag, TagDataType};
 use futures::{AsyncRead, AsyncReadExt, Stream};
 use crate::error::TagIteratorError;
 use crate::TagIterator;
+use crate::tag_iterator_util::EBMLSize;
+use crate::tools;
 
 ///
 /// This can be transformed into a [`Stream`] using [`into_stream`][TagIteratorAsync::into_stream], or consumed directly by calling [`.next().await`] in a loop.
@@ -33,15 +35,65 @@ impl<R: AsyncRead + Unpin, TSpec> TagIteratorAsync<R, TSpec>
     }
 
     pub async fn next(&mut self) -> Option<Result<TSpec, TagIteratorError>> {
-        match self.source.read(&mut self.buffer).await {
-            Ok(len) => {
-                self.iterator.get_mut().get_mut().append(&mut self.buffer[..len].to_vec());
-                self.iterator.next()
-            },
-            Err(e) => {
-                Some(Err(TagIteratorError::ReadError { source: e }))
+        // The inner iterator takes the end of the bytes received so far for the end of the input.  It is therefore only
+        // asked once it cannot run into that end: an item is already queued, every byte of the next item has been
+        // received, or the source has nothing more to give.
+        while !self.iterator.has_queued_items() && !self.next_item_received() {
+            match self.source.read(&mut self.buffer).await {
+                Ok(0) => break,
+                Ok(len) => self.iterator.get_mut().get_mut().extend_from_slice(&self.buffer[..len]),
+                Err(e) => return Some(Err(TagIteratorError::ReadError { source: e })),
             }
-        } 
+        }
+        self.iterator.next()
+    }
+
+    ///
+    /// Whether the bytes received so far hold everything the inner iterator consumes for its next item.
+    ///
+    fn next_item_received(&self) -> bool {
+        let received = self.iterator.get_ref().get_ref();
+        let mut position = self.iterator.current_offset();
+
+        loop {
+            let data = match received.get(position..) {
+                Some(data) => data,
+                None => return false,
+            };
+
+            // The first byte of a tag id tells the length of the id
+            let id_len = match data.first() {
+                None => return false,
+                Some(0) => 1,
+                Some(first) => first.leading_zeros() as usize + 1,
+            };
+            if data.len() < id_len {
+                return false;
+            }
+            let tag_id = data[..id_len].iter().fold(0u64, |id, byte| (id << 8) | *byte as u64);
+
+            let (size, size_len) = match tools::read_vint(&data[id_len..]) {
+                Ok(Some(size)) => size,
+                Ok(None) => return false,
+                // Not a size: the iterator reports that no matter what follows
+                Err(_) => return true,
+            };
+            let data_len = data.len() - id_len - size_len;
+
+            let is_master = matches!(TSpec::get_tag_data_type(tag_id), Some(TagDataType::Master));
+            if is_master && !self.iterator.buffers_tag(tag_id) {
+                // Only the header is consumed, the children are items of their own
+                return true;
+            }
+            match EBMLSize::new(size, size_len) {
+                EBMLSize::Known(size) if !is_master => return data_len >= size,
+                EBMLSize::Known(size) if data_len < size => return false,
+                // The end of a buffered master is found while reading the tag that follows it
+                EBMLSize::Known(size) => position += id_len + size_len + size,
+                // A buffered master of unknown size ends with the first element that is not one of its children, or with the source
+                EBMLSize::Unknown => return !is_master,
+            }
+        }
     }
 
     pub fn into_stream(self) -> impl Stream<Item=Result<TSpec, TagIteratorError>> {
